@@ -419,6 +419,20 @@ where
         log::debug!("{}", control);
         match control {
             ConnectionControl::Close(error) => {
+                // A close has already been written (a cancelled `close()` followed by
+                // another close or by the drop of the handle): a connection sends at
+                // most one close
+                if matches!(
+                    self.connection.local_state(),
+                    ConnectionState::CloseSent
+                        | ConnectionState::ClosePipe
+                        | ConnectionState::OpenClosePipe
+                        | ConnectionState::Discarding
+                        | ConnectionState::End
+                ) {
+                    return Ok(Running::Continue);
+                }
+
                 // Record a locally initiated close with an error before the
                 // channels close, so sessions and links observe the local
                 // error regardless of how the peer responds.
